@@ -22,6 +22,18 @@ type Zero struct{}
 
 func (Zero) Intn(int) int { return 0 }
 
+// Seeded is a deterministic Chooser (a 64-bit LCG): a rendering is a function of State, so a
+// replay file can name it.
+type Seeded struct{ State uint64 }
+
+func (s *Seeded) Intn(n int) int {
+	if n <= 1 {
+		return 0
+	}
+	s.State = s.State*6364136223846793005 + 1442695040888963407
+	return int((s.State >> 33) % uint64(n))
+}
+
 // Selector spelling preferences.
 const (
 	SelAny      = -1
@@ -403,6 +415,9 @@ func PointerExpressible(s Sel) bool {
 	if len(s.Parts) == 0 {
 		return false
 	}
+	if len(s.Parts) == 1 && s.Parts[0] == "" {
+		return true // the JSON Pointer without segments, written "": the grammar gives it the single part ""
+	}
 	for _, p := range s.Parts {
 		if !pointerSafePart(p) || !utf8.ValidString(p) {
 			return false
@@ -437,7 +452,11 @@ func (r *Renderer) selector(o *out, s Sel) grammar.Selector {
 		r.PointerSels++
 		var sb strings.Builder
 		sb.WriteByte('"')
-		for _, p := range s.Parts {
+		parts := s.Parts
+		if len(parts) == 1 && parts[0] == "" {
+			parts = nil
+		}
+		for _, p := range parts {
 			sb.WriteByte('/')
 			sb.WriteString(strings.ReplaceAll(strings.ReplaceAll(p, "~", "~0"), "/", "~1"))
 		}
@@ -516,7 +535,7 @@ func (r *Renderer) value(o *out, lit string) {
 	}
 	if style == 2 && rawQuotable(lit) {
 		raw := lit
-		if !r.NoLayout && r.Ch.Intn(12) == 11 {
+		if !r.NoLayout && r.Ch.Intn(6) == 5 {
 			// carriage returns inside a raw string literal are discarded (Go raw string semantics)
 			i := r.Ch.Intn(len(raw) + 1)
 			for i < len(raw) && !utf8.RuneStart(raw[i]) {
